@@ -152,7 +152,7 @@ prop('C18',
      'rt: byte arrays of every length 0..99, lengths within 2 of multiples of 16 up to 4096 and random lengths, four '
      'value styles, dumped with hex_dump_to_file and parsed back; fuzz: random strings over hex digits, x, colon, '
      'blanks, newlines and arbitrary bytes (four flavours); struct: texts rendered from known bytes with optional 0x, '
-     'mixed case, blanks/tabs/CR, blank lines and an address prefix on every line or none. Non-trivial = multi-line '
+     'mixed case, separators from the whole isspace class (blank, tab, CR, VT, FF), blank lines and an address prefix on every line or none. Non-trivial = multi-line '
      'dump, or string ending inside a pair / after 0x / multi-line with a colon, or multi-line structured text with '
      'prefix; distinct by content hash.',
      [Stage('rt', ['harness/hex.c'], HEX, preset='asan', nproc=8,
@@ -162,7 +162,7 @@ prop('C18',
             needs_min={'fuzz_strings_ending_after_0x': 10, 'fuzz_strings_yielding_bytes': 1000}),
       Stage('struct', ['harness/hex.c'], HEX, preset='asan', nproc=16,
             args={'quick': ['--extra', 'struct'], 'thorough': ['--extra', 'struct']},
-            needs_min={'structured_texts_multiline_with_prefix': 1000}),
+            needs_min={'structured_texts_multiline_with_prefix': 1000, 'structured_texts_with_cr_vt_ff_separators': 1000}),
       Stage('fuzz-clang', ['harness/hex.c'], HEX, preset='asan', cc='clang', nproc=16, tiers=('thorough',),
             args={'thorough': ['--extra', 'fuzz', '--cases', '4000000']})],
      assumptions=['an address prefix is used on every line of a text or on none (the parser looks for the next colon '
@@ -256,10 +256,10 @@ prop('C11',
             needs_min={'big_shapes': 100, 'degenerate_chains': 4}),
       Stage('lists', ['harness/bintree.c'], BT, preset='asan', nproc=4, cflags=NOPACKWARN,
             args={'quick': ['--extra', 'lists'], 'thorough': ['--extra', 'lists']},
-            needs_min={'list_spines_compared': 78}),
+            needs_min={'list_spines_compared': 114, 'list_spines_nil_terminated': 36}),
       Stage('shapes-clang-O2', ['harness/bintree.c'], BT, preset='asan-O2', cc='clang', nproc=16, cflags=NOPACKWARN,
             tiers=('thorough',), args={'thorough': ['--extra', 'shapes', '--cases', '11']})],
-     assumptions=['list spines are pure (every list node has two non-NULL children, the spine leans one way only)',
+     assumptions=['list spines are pure (every list node has two non-NULL children, the spine leans one way only), except that a right-leaning spine may end cons-cell style in an empty right link',
                   'the 2-mod-4 placement stage is built without UBSan\'s alignment check: the statement allows 2-byte '
                   'aligned nodes, which x86 executes, whereas the pointer members then are formally misaligned'],
      exhaustive_note='shapes stages enumerate every shape up to the stated node count',
@@ -665,7 +665,8 @@ import ptgen
 
 def pt_stage(name, preset, cc, nfiles, per, tiers=('quick', 'thorough')):
     return Stage(name, ['harness/pt_driver.c'], [], preset=preset, cc=cc, nproc=8, tiers=tiers,
-                 pregen=ptgen.pregen(nfiles, per), needs_min={'programs_run': nfiles * per * 9 // 10, 'invocations': 1000},
+                 pregen=ptgen.pregen(nfiles, per), needs_min={'programs_run': nfiles * per * 9 // 10, 'invocations': 1000,
+                            'programs_with_unbraced_spawn_as_loop_or_if_body': nfiles * per // 40},
                  timeout={'quick': 600, 'thorough': 3600})
 
 
@@ -675,8 +676,10 @@ prop('C08',
      'effect, PT_EXIT(_ON), PT_FAIL(_ON), PT_SPAWN, PT_SPAWN_AND_CHECK, PT_CALL, PT_CHILD_OK; children to depth 3), each '
      'rendered as C over the real protothreads.h and executed by a Python-generator interpreter for the expected '
      'trace; every program is invoked to completion twice (PT_INIT in between) and the return code and side effects of '
-     'every invocation compared. Non-trivial = program with a blocking point inside a loop inside a conditional, a '
-     'spawn inside a loop, or a failing child; programs are distinct by construction (id), counted.',
+     'every invocation compared; loop and if bodies that are a single PT_ macro are written without braces two times '
+     'in three, conditions are unparenthesised expressions with truth values other than 1. Non-trivial = program with a '
+     'blocking point inside a loop inside a conditional, a spawn inside a loop, a failing child or an unbraced macro '
+     'body; programs are distinct by construction (id), counted.',
      [pt_stage('gcc-O1', 'asan', 'gcc', 8, 100),
       pt_stage('clang-O1', 'asan', 'clang', 4, 100),
       pt_stage('gcc-O2-more', 'asan-O2', 'gcc', 16, 400, tiers=('thorough',)),
